@@ -485,6 +485,7 @@ bi_chain = bi_itertools_chain
 
 def bi_sorted(e, st, args, kw, node):
     st, X = _materialize(e, st, args[0])
+    X = e.copy0(st, X)
     keyf = kw.get('key')
     rev = kw.get('reverse')
     reverse = False
